@@ -776,3 +776,53 @@ pub fn c12_regularize_signs_ppm() {
 pub fn c12_regularize_signs_mpm() {
     regularize_signs([-1, 1, -1]);
 }
+
+// ------------------------------------------------------------------------------------------
+// the reported positive inertia is the number of positive pivots AFTER EVERY (re)factorisation - through the
+// public QDLDLFactorisation API (user-supplied identity ordering, so no AMD), 2x2 dense upper triangle,
+// small-integer values, logical or numeric construction, update_values + refactor
+// ------------------------------------------------------------------------------------------
+fn inertia_after_refactor(logical: bool) {
+    use clarabel::qdldl::{QDLDLFactorisation, QDLDLSettings};
+    // diagonal 2x2 matrix (no fill-in: the factorisation itself is decided in c12_ldl*), concrete first values;
+    // the public constructor with a symbolic pattern or symbolic first values exhausts memory (heap-held
+    // elimination tree, DESIGN.md 6.2.9)
+    let A = CscMatrix::<f64> { m: 2, n: 2, colptr: vec![0, 1, 2], rowval: vec![0, 1], nzval: vec![1.0, 1.0] };
+    let opts = QDLDLSettings::<f64> {
+        amd_dense_scale: 1.0,
+        perm: Some(vec![0, 1]),
+        logical,
+        Dsigns: None,
+        regularize_enable: false,
+        regularize_eps: 1e-12,
+        regularize_delta: 1e-7,
+    };
+    let count_pos = |d: &[f64]| (d[0] > 0.0) as usize + (d[1] > 0.0) as usize;
+    let f = QDLDLFactorisation::<f64>::new(&A, Some(opts));
+    assert!(f.is_ok());
+    let mut f = f.unwrap();
+    if !logical {
+        assert!(f.positive_inertia() == 2, "inertia_after_new_counts_positive_pivots");
+    }
+    let newvals = [small_f64(4), small_f64(4)];
+    f.update_values(&[0, 1], &newvals);
+    let r = f.refactor();
+    if r.is_ok() {
+        assert!(f.positive_inertia() == count_pos(&f.D), "inertia_after_refactor_counts_positive_pivots");
+        kani::cover!(count_pos(&f.D) == 1, "one positive, one negative pivot after the refactor");
+        kani::cover!(count_pos(&f.D) == 2, "two positive pivots after the refactor");
+    }
+    core::mem::forget(f);
+}
+
+#[kani::proof]
+#[kani::unwind(8)]
+pub fn c12_inertia_after_refactor() {
+    inertia_after_refactor(true);
+}
+
+#[kani::proof]
+#[kani::unwind(8)]
+pub fn c12_inertia_after_refactor_numeric() {
+    inertia_after_refactor(false);
+}
